@@ -3,6 +3,7 @@ package gen
 import (
 	"errors"
 	"math/rand"
+	"sort"
 )
 
 type opaqueStruct struct {
@@ -104,8 +105,13 @@ func Opaque(i int) interface{} {
 func Opaquify(r *rand.Rand, d interface{}, p int, used map[string]bool) interface{} {
 	switch t := d.(type) {
 	case map[string]interface{}:
-		for k, v := range t {
-			t[k] = Opaquify(r, v, p, used)
+		ks := make([]string, 0, len(t))
+		for k := range t {
+			ks = append(ks, k)
+		}
+		sort.Strings(ks) // the PRNG must be consumed in a deterministic order
+		for _, k := range ks {
+			t[k] = Opaquify(r, t[k], p, used)
 		}
 		return t
 	case []interface{}:
